@@ -21,7 +21,7 @@ using M::Fields;
 
 static const char* EXT[] = {"", ".gz", ".xz"};
 
-enum Oracle { O_C01 = 1, O_C02 = 2, O_C04 = 4, O_C10 = 8, O_C11 = 16, O_C12 = 32, O_C13 = 64, O_C17 = 128, O_C14 = 256 };
+enum Oracle { O_C01 = 1, O_C02 = 2, O_C04 = 4, O_C10 = 8, O_C11 = 16, O_C12 = 32, O_C13 = 64, O_C17 = 128, O_C14 = 256, O_C09 = 512 };
 
 struct Profile {
   const char* name;
@@ -607,7 +607,7 @@ static void hist_case(Case& cs, const Profile& pf) {
     // C13 / C09: the preamble of this output holds the sets known when its header was written
     {
       M::Preamble ep = mpre; ep.bps = o.sets_header;
-      if (M::dump(ep) != M::dump(got.pre)) cx.fail(O_C01 | O_C13 | O_C04, "c01.preamble", where + ": preamble differs\n expected " + M::dump(ep) + " got      " + M::dump(got.pre) + trace.str());
+      if (M::dump(ep) != M::dump(got.pre)) cx.fail(O_C01 | O_C13 | O_C04 | O_C09, "c01.preamble", where + ": preamble differs\n expected " + M::dump(ep) + " got      " + M::dump(got.pre) + trace.str());
     }
     // C01 (independent reader)
     if (got.blocks.size() != o.blocks.size()) {
@@ -752,12 +752,15 @@ static Profile P_C12() { Profile p; p.name = "c12"; p.oracles = O_C12; p.small_b
 static Profile P_C12E() { Profile p = P_C12(); p.name = "c12enum"; p.enum_mode = true; return p; }
 static Profile P_ALIGN(const char* n, unsigned o) { Profile p; p.name = n; p.oracles = o; p.align_mode = true; return p; }
 static Profile P_C13() { Profile p; p.name = "c13"; p.oracles = O_C13; p.w_retune = 1; p.w_rotate = 5; p.w_addbp = 2; p.w_setactive = 2; p.w_ext = 1; p.small_blocks = true; return p; }
+// C09 over histories: every output of an exporter (not only its first) starts with the preamble as constructed - rotations, blocks
+// written in between, parameter sets added and activated
+static Profile P_C09() { Profile p; p.name = "c09"; p.oracles = O_C09; p.w_rotate = 5; p.w_addbp = 2; p.w_setactive = 3; p.w_write = 3; p.small_blocks = true; p.max_sets = 4; return p; }
 static Profile P_C14() { Profile p = P_C02(); p.name = "c14"; p.oracles = O_C14 | O_C01 | O_C02 | O_C10; p.big_strings = true; p.force_compression = true; p.w_rotate = 3; return p; }
 static Profile P_C17() { Profile p; p.name = "c17"; p.oracles = O_C17 | O_C01; p.w_retune = 2; p.w_rotate = 1; p.hint_modes = false; p.w_mm = 6; p.w_aec = 1; p.pres_fixed = 5; return p; }
 
 int main(int argc, char** argv) {
   Registry r;
-  static Profile ps[] = {P_ALIGN("c01align", O_C01), P_ALIGN("c02align", O_C02), P_ALIGN("c10align", O_C10), P_ALIGN("c13align", O_C13), P_C01(), P_C01BIG(), P_C01HUGE(), P_C02(), P_C04(), P_C10(), P_C11(), P_C12(), P_C12E(), P_C13(), P_C14(), P_C17()};
+  static Profile ps[] = {P_ALIGN("c01align", O_C01), P_ALIGN("c02align", O_C02), P_ALIGN("c10align", O_C10), P_ALIGN("c13align", O_C13), P_C01(), P_C01BIG(), P_C01HUGE(), P_C02(), P_C04(), P_C10(), P_C11(), P_C12(), P_C12E(), P_C13(), P_C09(), P_C14(), P_C17()};
   for (auto& p : ps) { const Profile* pp = &p; r.add(std::string("hist_") + p.name, [pp](Case& cs) { hist_case(cs, *pp); }); }
   return harness_main(argc, argv, r);
 }
